@@ -21,6 +21,9 @@ package ast
 //@ fields_copied (*Matrix).DeepCopy               [C08]
 //@ fields_copied *                                [C08,C05]   -- any other DeepCopy method of this package, present or future
 
+// every task that comes out of the decoder carries its location (Tasks.UnmarshalYAML sets it for each entry, DeepCopy
+// and the compiler copy it): consumers dereference it without a test
+//@ nonnil Task.Location
 //@ nonnil elem:*github.com/go-task/task/v3/taskfile/ast.Glob elem:*github.com/go-task/task/v3/taskfile/ast.Platform elem:*github.com/go-task/task/v3/taskfile/ast.VarsWithValidation
 
 // ---- C16: no YAML document makes a decoder panic (zero-annotation safety sweep) -------------------
